@@ -10,8 +10,10 @@ import (
 	"fmt"
 	"strconv"
 	"strings"
+	"sync"
 	"sync/atomic"
 	"testing"
+	"time"
 
 	"github.com/anthdm/hollywood/internal/vgen"
 )
@@ -393,4 +395,102 @@ func TestVerifProc(t *testing.T) {
 		emit(fmt.Sprintf("g%d", i), max, mw, script, items)
 	}
 	t.Logf("proc: %d enumerated + %d random histories", n, ng)
+}
+
+// ---------------------------------------------------------------------------------------------
+// stream "mwopts" (C13): the chain an actor runs is the chain given at ITS spawn — options built
+// with WithMiddleware from a shared slice (with spare capacity) for several actors.
+// ---------------------------------------------------------------------------------------------
+
+func runMwOpts(t testing.TB, ncommon, spare, nactors int) string {
+	e, err := NewEngine(NewEngineConfig())
+	if err != nil {
+		t.Fatal(err)
+	}
+	common := make([]MiddlewareFunc, 0, ncommon+spare)
+	type rec struct {
+		mu   sync.Mutex
+		seen []string
+	}
+	recs := make([]*rec, nactors)
+	mk := func(tag string, r **rec) MiddlewareFunc {
+		return func(next ReceiveFunc) ReceiveFunc {
+			return func(c *Context) {
+				if _, ok := c.Message().(vUser); ok && *r != nil {
+					(*r).mu.Lock()
+					(*r).seen = append((*r).seen, tag)
+					(*r).mu.Unlock()
+				}
+				next(c)
+			}
+		}
+	}
+	// the common middlewares record into whichever actor is currently receiving (set by the receiver's own wrapper)
+	var current *rec
+	for i := 0; i < ncommon; i++ {
+		common = append(common, mk("c"+strconv.Itoa(i), &current))
+	}
+	pids := make([]*PID, nactors)
+	done := make(chan int, nactors)
+	for a := 0; a < nactors; a++ {
+		a := a
+		recs[a] = &rec{}
+		own := func(next ReceiveFunc) ReceiveFunc {
+			return func(c *Context) {
+				if _, ok := c.Message().(vUser); ok {
+					recs[a].mu.Lock()
+					recs[a].seen = append(recs[a].seen, "own"+strconv.Itoa(a))
+					recs[a].mu.Unlock()
+				}
+				next(c)
+			}
+		}
+		pids[a] = e.SpawnFunc(func(c *Context) {
+			if _, ok := c.Message().(vUser); ok {
+				done <- a
+			}
+		}, "mw", WithID(strconv.FormatInt(atomic.AddInt64(&vProcSeq, 1), 10)), WithMiddleware(common...), WithMiddleware(own))
+	}
+	var out []string
+	for a := 0; a < nactors; a++ {
+		current = recs[a]
+		e.Send(pids[a], vUser{a})
+		select {
+		case <-done:
+		case <-time.After(3 * time.Second):
+			out = append(out, "TIMEOUT")
+			continue
+		}
+		recs[a].mu.Lock()
+		out = append(out, strings.Join(recs[a].seen, "."))
+		recs[a].mu.Unlock()
+	}
+	for _, p := range pids {
+		<-e.Poison(p).Done()
+	}
+	return strings.Join(out, ";")
+}
+
+func TestVerifMwOpts(t *testing.T) {
+	w, err := vgen.NewWriter("mwopts")
+	if err != nil {
+		t.Fatal(err)
+	}
+	defer w.Close()
+	emit := func(id string, nc, sp, na int) {
+		w.Case(id, fmt.Sprintf("common=%d spare=%d actors=%d", nc, sp, na), runMwOpts(t, nc, sp, na))
+	}
+	if in, ok := vgen.ReplayInput(); ok {
+		emit("replay", vgen.KVInt(in, "common", 1), vgen.KVInt(in, "spare", 1), vgen.KVInt(in, "actors", 2))
+		return
+	}
+	n := 0
+	for nc := 0; nc <= 3; nc++ {
+		for sp := 0; sp <= 2; sp++ {
+			for na := 1; na <= 3; na++ {
+				emit(fmt.Sprintf("m%d", n), nc, sp, na)
+				n++
+			}
+		}
+	}
 }
